@@ -3,7 +3,7 @@
     r1_* / s1_* are the Gallina translations regenerated from /repo on every run. *)
 From Coq Require Import Reals Floats Bool.
 From Geo Require Import Base.GoPrim Base.F64 Gen.R1 Gen.S1 Proofs.C19_R1.
-From Geo Require Import Gen.R2 Gen.S2Rect Proofs.C19_R2 Proofs.C19_S2Rect.
+From Geo Require Import Gen.R2 Gen.S2Rect Gen.S2Cap Proofs.C19_R2 Proofs.C19_S2Rect Proofs.C19_Expanded Proofs.C19_Cap.
 From Geo Require Import Proofs.C19_S1 Proofs.C19_S1_Union Proofs.C19_S1_Inter Proofs.C19_S1_Rel Proofs.C19_S1_Ops.
 Local Open Scope R_scope.
 
@@ -307,3 +307,125 @@ Proof.
         (conj s2rect_empty_valid s2rect_full_valid))))).
 Qed.
 Print Assumptions s2rect_results_valid.
+
+(** Expansion (r1.Interval, r2.Rect) ---------------------------------------
+    a non-negative margin keeps every point; the only guard is that the computed endpoints
+    are not NaN (inf - inf), which [wf1 (Expanded ...)] says. *)
+Theorem r1_expanded_keeps_everything : forall i m p, wf1 i -> nonnan m -> 0 <= rank m -> nonnan p ->
+  wf1 (r1_Interval_Expanded i m) -> mem1 i p -> mem1 (r1_Interval_Expanded i m) p.
+Proof. exact r1_expanded_sound. Qed.
+Print Assumptions r1_expanded_keeps_everything.
+
+Theorem r2_expanded_keeps_everything : forall r m px py, wf_r2 r ->
+  nonnan (r2_Point_X m) -> nonnan (r2_Point_Y m) -> 0 <= rank (r2_Point_X m) -> 0 <= rank (r2_Point_Y m) ->
+  nonnan px -> nonnan py ->
+  wf1 (r1_Interval_Expanded (r2_Rect_X r) (r2_Point_X m)) ->
+  wf1 (r1_Interval_Expanded (r2_Rect_Y r) (r2_Point_Y m)) ->
+  mem_r2 r px py -> mem_r2 (r2_Rect_Expanded r m) px py.
+Proof. exact r2_expanded_sound. Qed.
+Print Assumptions r2_expanded_keeps_everything.
+
+(** s2.Cap -----------------------------------------------------------------
+    closed theorems about the code's point test (rounded squared chord <= radius) ... *)
+Theorem cap_addpoint_contains_the_point : forall c p, nonnan (s2_Cap_radius c) ->
+  (s2_Cap_IsEmpty c = true -> fin_pt p) ->
+  (s2_Cap_IsEmpty c = false -> dist_ok (s2_Cap_center c) p) ->
+  s2_Cap_ContainsPoint (s2_Cap_AddPoint c p) p = true.
+Proof. exact cap_addpoint_contains_point. Qed.
+Print Assumptions cap_addpoint_contains_the_point.
+
+Theorem cap_addpoint_keeps_every_point : forall c p q, nonnan (s2_Cap_radius c) ->
+  (s2_Cap_IsEmpty c = false -> dist_ok (s2_Cap_center c) p) ->
+  s2_Cap_ContainsPoint c q = true -> s2_Cap_ContainsPoint (s2_Cap_AddPoint c p) q = true.
+Proof. exact cap_addpoint_keeps_points. Qed.
+Print Assumptions cap_addpoint_keeps_every_point.
+
+Theorem cap_addcap_keeps_receiver_points : forall c o q, nonnan (s2_Cap_radius c) ->
+  s2_Cap_ContainsPoint c q = true -> s2_Cap_ContainsPoint (s2_Cap_AddCap c o) q = true.
+Proof. exact cap_addcap_keeps_first. Qed.
+Print Assumptions cap_addcap_keeps_receiver_points.
+
+Theorem cap_empty_and_full : forall c p,
+  (s2_Cap_IsEmpty c = true -> s2_Cap_ContainsPoint c p = false) /\
+  (s2_Cap_IsFull c = true -> nonnan (s2_Cap_radius c) -> dist_ok (s2_Cap_center c) p ->
+   s2_Cap_ContainsPoint c p = true).
+Proof. intros c p. exact (conj (cap_empty_contains_none c p) (cap_full_contains_all c p)). Qed.
+Print Assumptions cap_empty_and_full.
+
+Theorem cap_complement_of_empty_and_full : forall c,
+  (s2_Cap_IsFull c = true -> s2_Cap_Complement c = s2_EmptyCap) /\
+  (s2_Cap_IsEmpty c = true -> s2_Cap_Complement c = s2_FullCap).
+Proof. intros c. exact (conj (cap_complement_full c) (cap_complement_empty c)). Qed.
+Print Assumptions cap_complement_of_empty_and_full.
+
+Theorem cap_complement_of_special_covers : forall c p, nonnan (s2_Cap_radius c) ->
+  s2_Cap_IsEmpty c = true \/ s2_Cap_IsFull c = true ->
+  dist_ok (s2_Cap_center c) p -> dist_ok s2_centerPoint p ->
+  s2_Cap_ContainsPoint c p = true \/ s2_Cap_ContainsPoint (s2_Cap_Complement c) p = true.
+Proof. exact cap_complement_special_covers. Qed.
+Print Assumptions cap_complement_of_special_covers.
+
+Theorem cap_contains_with_special_operands : forall c o p,
+  s2_Cap_IsFull c = true \/ s2_Cap_IsEmpty o = true ->
+  s2_Cap_Contains c o = true /\
+  (nonnan (s2_Cap_radius c) -> dist_ok (s2_Cap_center c) p ->
+   s2_Cap_ContainsPoint o p = true -> s2_Cap_ContainsPoint c p = true).
+Proof.
+  intros c o p Hs.
+  exact (conj (cap_contains_full_or_empty c o Hs) (fun N D => cap_contains_special_sound c o p N Hs D)).
+Qed.
+Print Assumptions cap_contains_with_special_operands.
+
+Theorem cap_intersects_with_empty_operand : forall c o p,
+  s2_Cap_IsEmpty c = true \/ s2_Cap_IsEmpty o = true ->
+  s2_Cap_Intersects c o = false /\
+  ~ (s2_Cap_ContainsPoint c p = true /\ s2_Cap_ContainsPoint o p = true).
+Proof.
+  intros c o p Hs. exact (conj (cap_intersects_empty c o Hs) (cap_intersects_empty_sound c o p Hs)).
+Qed.
+Print Assumptions cap_intersects_with_empty_operand.
+
+(** ... and, under the named hypothesis H_CAPARITH eps (rounded chord-angle arithmetic obeys the
+    triangle inequality up to eps; a statement about float expressions only), soundness of
+    Contains / Intersects / AddCap / Expanded / Complement up to eps in squared chord length. *)
+Theorem cap_contains_sound_H : forall eps, H_CAPARITH eps -> forall c o p,
+  s2_Cap_IsValid c = true -> s2_Cap_IsValid o = true -> unitp p -> dist_ok (s2_Cap_center c) p ->
+  s2_Cap_Contains c o = true -> s2_Cap_ContainsPoint o p = true ->
+  rank (s2_ChordAngleBetweenPoints (s2_Cap_center c) p) <= rank (s2_Cap_radius c) + eps.
+Proof. exact cap_contains_sound_under_H. Qed.
+Print Assumptions cap_contains_sound_H.
+
+Theorem cap_intersects_sound_H : forall eps, H_CAPARITH eps -> forall c o p,
+  s2_Cap_IsValid c = true -> s2_Cap_IsValid o = true -> unitp p ->
+  s2_Cap_ContainsPoint c p = true -> s2_Cap_ContainsPoint o p = true ->
+  s2_Cap_Intersects c o = true \/
+  rank (s2_ChordAngleBetweenPoints (s2_Cap_center c) (s2_Cap_center o))
+    <= rank (s1_ChordAngle_Add (s2_Cap_radius c) (s2_Cap_radius o)) + eps.
+Proof. exact cap_intersects_sound_under_H. Qed.
+Print Assumptions cap_intersects_sound_H.
+
+Theorem cap_addcap_sound_H : forall eps, H_CAPARITH eps -> forall c o p,
+  s2_Cap_IsValid c = true -> s2_Cap_IsValid o = true -> unitp p ->
+  s2_Cap_IsEmpty c = false -> s2_Cap_ContainsPoint o p = true ->
+  let u := s2_Cap_AddCap c o in
+  s2_Cap_center u = s2_Cap_center c /\
+  rank (s2_ChordAngleBetweenPoints (s2_Cap_center c) p) <= rank (s2_Cap_radius u) + eps.
+Proof. exact cap_addcap_sound_under_H. Qed.
+Print Assumptions cap_addcap_sound_H.
+
+Theorem cap_expanded_sound_H : forall eps, H_CAPARITH eps -> forall c d p,
+  s2_Cap_IsValid c = true -> radius_ok (s1_ChordAngleFromAngle d) ->
+  s2_Cap_ContainsPoint c p = true ->
+  let e := s2_Cap_Expanded c d in
+  s2_Cap_center e = s2_Cap_center c /\
+  rank (s2_ChordAngleBetweenPoints (s2_Cap_center c) p) <= rank (s2_Cap_radius e) + eps.
+Proof. exact cap_expanded_sound_under_H. Qed.
+Print Assumptions cap_expanded_sound_H.
+
+Theorem cap_complement_covers_H : forall eps, H_CAPARITH eps -> forall c p,
+  s2_Cap_IsValid c = true -> s2_Cap_IsEmpty c = false -> s2_Cap_IsFull c = false -> unitp p ->
+  s2_Cap_ContainsPoint c p = true \/
+  (let k := s2_Cap_Complement c in
+   rank (s2_ChordAngleBetweenPoints (s2_Cap_center k) p) <= rank (s2_Cap_radius k) + eps).
+Proof. exact cap_complement_covers_under_H. Qed.
+Print Assumptions cap_complement_covers_H.
